@@ -70,6 +70,22 @@ def struct(x):
     return ('other', type(x).__name__)
 
 
+def hollow(a):
+    """A dictionary without any leaf value (empty, or holding only such
+    dictionaries): the flat npz key space has nothing to store for it."""
+    return a[0] == 'dict' and all(hollow(v) for v in a[1].values())
+
+
+def prune_hollow(a):
+    """The structure as an npz file holds it (known finding, §6)."""
+    if a[0] == 'dict':
+        keep = {k: prune_hollow(v) for k, v in a[1].items() if not hollow(v)}
+        return ('dict', keep, [k for k in a[2] if k in keep])
+    if a[0] == 'obj':
+        return a
+    return a
+
+
 def diff(a, b, path='', ordered=False):
     """First difference between two structures, or None.  Inside emg3d
     objects the key order of dictionaries is significant (sources, receivers
@@ -84,7 +100,7 @@ def diff(a, b, path='', ordered=False):
             return (f'{path}: key order differs: saved {a[2]}, loaded '
                     f'{b[2]} (names are attached to data by position)')
         if ka != kb:
-            if not (kb - ka) and all(a[1][k][:2] == ('dict', {})
+            if not (kb - ka) and all(hollow(a[1][k])
                                      for k in ka - kb):
                 return (f'{path}: EMPTY-DICT-DROPPED: the empty '
                         f'dictionaries {sorted(ka - kb)} are missing after '
@@ -545,6 +561,10 @@ class C17(Machine):
                 date = self._expected_date(ctx)
                 emg3d.io.convert(src, path, verb=0)
                 entry = dict(ctx.refmap[src])
+                if src.endswith('.npz'):
+                    # the source file does not hold them (known finding)
+                    entry = {k: prune_hollow(v) for k, v in entry.items()
+                             if not hollow(v)}
                 entry['_date'] = ('str', date)
                 return entry
         failed = None
@@ -608,7 +628,7 @@ class C17(Machine):
                         f'load({os.path.basename(path)}): {w.message}',
                         quantity=fmt, op=opk)
             for name, s in want.items():
-                if name not in got and s[:2] == ('dict', {}):
+                if name not in got and hollow(s):
                     raise Violation(
                         'convert' if opk == 'convert' else 'roundtrip',
                         f'{os.path.basename(path)}: EMPTY-DICT-DROPPED: '
